@@ -8,3 +8,7 @@
 #include "modules/respond/spec.h"
 size_t g_len0, g_off0, g_cap0; /* ghosts: pre-state body geometry (BT_BODY_GHOSTS) */
 nni_aio *g_raio; /* ghost: the pending receive aio of the first waiting context */
+#ifdef VP_EXPERIMENT_NOMEMCPY
+#undef memcpy
+#define memcpy(d, s, n) ((void) (d), (void) (s), (void) (n))
+#endif
